@@ -10,6 +10,7 @@ about and demand that every 64-bit cursor update `p ↦ p + d` satisfies `p.toNa
 and that every offset stored in an ELF32 header field fits 32 bits (`fitsB`).
 -/
 import ElfioVerif.Model.Writer
+import ElfioVerif.Lemmas.RelocSwap
 namespace ElfioVerif
 open Gen
 
@@ -991,6 +992,12 @@ def layoutOf (o : Obj) (h : Bytes) : M (Option LayoutRes) := do
     pure (some { hdr0 := h, pos0 := pos0, segs0 := segs, ordered := ordered, lay2 := lay, done := done,
                  segs := segs', secs := r.1, pos3 := r.2, shoff := lst_cursor r.2 (lst_error r.2) })
 
+/-- the object after the `get_data()` calls at the start of `save` (lazily loaded data becomes
+    resident; no header field changes, `allResident_hdr`) — the object the layout runs on -/
+def preSave (o : Obj) : Obj :=
+  { o with secs := (allResident o.cls o.trans o.secs { st := o.stream } []).1,
+           stream := (allResident o.cls o.trans o.secs { st := o.stream } []).2.st }
+
 theorem ite_pure_eq {α : Type} (c : Prop) [Decidable c] (a b r : α)
     (h : (if c then (pure a : M α) else pure b) = .ok r) : r = a ∨ r = b := by
   split at h <;> simp only [pure, Except.pure, Except.ok.injEq] at h
@@ -1000,9 +1007,9 @@ theorem ite_pure_eq {α : Type} (c : Prop) [Decidable c] (a b r : α)
 /-- `save` succeeded ⇒ its layout is `layoutOf`, and the object it leaves carries that layout.
     (The only lemma here that looks at the part of `save` after the layout.) -/
 theorem save_layout (o : Obj) (os : OStream) (r : SaveRes) (h : save o os = .ok r) (hok : r.ok = true) :
-    ∃ hdr res, o.hdr = some hdr ∧ layoutOf o hdr = .ok (some res) ∧
+    ∃ hdr res, o.hdr = some hdr ∧ layoutOf (preSave o) hdr = .ok (some res) ∧
       r.obj.segs = res.segs ∧ r.obj.curPos = res.shoff ∧
-      r.obj.secs = (residentForSave o.cls o.trans res.secs { st := o.stream } []).1 := by
+      r.obj.secs = (residentForSave o.cls o.trans res.secs { st := (preSave o).stream } []).1 := by
   unfold save at h
   cases hh : o.hdr with
   | none =>
@@ -1017,7 +1024,9 @@ theorem save_layout (o : Obj) (os : OStream) (r : SaveRes) (h : save o os = .ok 
       subst h; exact absurd hok (by simp)
     · simp only [hf, Bool.false_eq_true, if_false] at h
       refine ⟨hdr, ?_⟩
-      cases hm : o.segs.mapM (calcSegAlign o.secs) with
+      unfold preSave
+      generalize allResident o.cls o.trans o.secs { st := o.stream } [] = ar at h ⊢
+      cases hm : o.segs.mapM (calcSegAlign ar.1) with
       | error e => rw [hm] at h; simp [bind, Except.bind] at h
       | ok segs =>
         rw [hm] at h
@@ -1030,12 +1039,15 @@ theorem save_layout (o : Obj) (os : OStream) (r : SaveRes) (h : save o os = .ok 
           split at h
           · simp at h
           · rename_i v hfold
-            have hfold' : ordered.foldlM (segsStep o.cls (Hdr.e_phoff o.cls o.enc (saveHdr0 o hdr))
-                (Hdr.e_phentsize o.cls o.enc (saveHdr0 o hdr)) (Hdr.e_phnum o.cls o.enc (saveHdr0 o hdr)))
-                (some (({ secs := o.secs,
-                          pos := save_cursor0 (Hdr.e_ehsize o.cls o.enc (saveHdr0 o hdr))
-                            (Hdr.e_phentsize o.cls o.enc (saveHdr0 o hdr)) (Hdr.e_phnum o.cls o.enc (saveHdr0 o hdr)),
-                          gen := List.replicate (o.secs.length % 65536) false } : Layout), [])) = .ok v := hfold
+            have hfold' : ordered.foldlM (segsStep o.cls
+                (Hdr.e_phoff o.cls o.enc (saveHdr0 { o with secs := ar.1, stream := ar.2.st } hdr))
+                (Hdr.e_phentsize o.cls o.enc (saveHdr0 { o with secs := ar.1, stream := ar.2.st } hdr))
+                (Hdr.e_phnum o.cls o.enc (saveHdr0 { o with secs := ar.1, stream := ar.2.st } hdr)))
+                (some (({ secs := ar.1,
+                          pos := save_cursor0 (Hdr.e_ehsize o.cls o.enc (saveHdr0 { o with secs := ar.1, stream := ar.2.st } hdr))
+                            (Hdr.e_phentsize o.cls o.enc (saveHdr0 { o with secs := ar.1, stream := ar.2.st } hdr))
+                            (Hdr.e_phnum o.cls o.enc (saveHdr0 { o with secs := ar.1, stream := ar.2.st } hdr)),
+                          gen := List.replicate (ar.1.length % 65536) false } : Layout), [])) = .ok v := hfold
             unfold layoutOf
             simp only [hm, ho, hfold', bind, Except.bind]
             cases v with
@@ -1052,8 +1064,8 @@ theorem save_layout (o : Obj) (os : OStream) (r : SaveRes) (h : save o os = .ok 
 /-! ### the header fields of a section that the layout is about, and `residentForSave` -/
 
 /-- the fields of a section the layout theorems talk about -/
-def hdrOf (s : SecBuf) : BitVec 64 × BitVec 64 × BitVec 32 × Nat × BitVec 64 × BitVec 64 × BitVec 64 :=
-  (s.offset, s.size, s.stype, s.index, s.addr, s.flags, s.addrAlign)
+def hdrOf (s : SecBuf) : BitVec 64 × BitVec 64 × BitVec 32 × Nat × BitVec 64 × BitVec 64 × BitVec 64 × Bool :=
+  (s.offset, s.size, s.stype, s.index, s.addr, s.flags, s.addrAlign, s.addrSet)
 
 theorem secLoadData_hdr (c : Cls) (tr : List Trans) (ls : LoadSt) (b : SecBuf) :
     hdrOf (secLoadData c tr ls b).2.1 = hdrOf b := by
@@ -1087,6 +1099,20 @@ theorem residentForSave_hdr (c : Cls) (tr : List Trans) (l : List SecBuf) (ls : 
         List.map_cons, secGetData_hdr]
     · rw [ih]
       simp only [List.reverse_cons, List.append_assoc, List.singleton_append]
+
+theorem allResident_hdr (c : Cls) (tr : List Trans) (l : List SecBuf) (ls : LoadSt) (acc : List SecBuf) :
+    (allResident c tr l ls acc).1.map hdrOf = (acc.reverse ++ l).map hdrOf := by
+  induction l generalizing ls acc with
+  | nil => simp [allResident]
+  | cons b rest ih =>
+    unfold allResident
+    simp only
+    rw [ih]
+    simp only [List.reverse_cons, List.append_assoc, List.singleton_append, List.map_append,
+      List.map_cons, secGetData_hdr]
+
+theorem preSave_hdr (o : Obj) : (preSave o).secs.map hdrOf = o.secs.map hdrOf := by
+  unfold preSave; simp only; rw [allResident_hdr]; simp
 
 theorem hdrOf_getElem? {l l' : List SecBuf} (h : l'.map hdrOf = l.map hdrOf) (k : Nat) (s' : SecBuf)
     (hs : l'[k]? = some s') : ∃ s, l[k]? = some s ∧ hdrOf s = hdrOf s' := by
@@ -1727,7 +1753,7 @@ theorem lseg_align_toNat (align : BitVec 64) : (lseg_align align).toNat = max al
     simp only [BitVec.toNat_ofNat, Nat.reducePow, Nat.reduceMod]
     omega
 
-theorem nat_congr_step (p a r : Nat) (x : Nat) (ha : 0 < a) (hr : r < a)
+private theorem nat_congr_step (p a r : Nat) (x : Nat) (ha : 0 < a) (hr : r < a)
     (hx : x = (if p % a ≤ r then r - p % a else a + r - p % a)) : (p + x) % a = r := by
   have hd := Nat.div_add_mod p a
   have hc := Nat.mod_lt p ha
@@ -1984,7 +2010,7 @@ theorem layoutSegment_dom (cov ins : Bool) (c : Cls) (hdrPhoff : BitVec 64) (phe
 
 /-! ### `get_ordered_segments` returns a permutation -/
 
-theorem set_set_perm (a : Array Seg) (i j : Nat) (x y : Seg) (hi : a[i]? = some x) (hj : a[j]? = some y) :
+private theorem set_set_perm (a : Array Seg) (i j : Nat) (x y : Seg) (hi : a[i]? = some x) (hj : a[j]? = some y) :
     ((a.set! i y).set! j x).Perm a := by
   obtain ⟨hi', rfl⟩ := Array.getElem?_eq_some_iff.1 hi
   obtain ⟨hj', rfl⟩ := Array.getElem?_eq_some_iff.1 hj
@@ -2471,7 +2497,7 @@ theorem wsdLoop_file_le (c : Cls) (g : Seg) (segStart : BitVec 64) (l : List (Bi
 
 /-! ### which turn a final segment comes from -/
 
-theorem nodup_map_inj {α β : Type} (f : α → β) (l : List α) (h : (l.map f).Nodup) (a b : α)
+private theorem nodup_map_inj {α β : Type} (f : α → β) (l : List α) (h : (l.map f).Nodup) (a b : α)
     (ha : a ∈ l) (hb : b ∈ l) (he : f a = f b) : a = b := by
   induction l with
   | nil => exact nomatch ha
@@ -2483,7 +2509,7 @@ theorem nodup_map_inj {α β : Type} (f : α → β) (l : List α) (h : (l.map f
     · exact absurd he (h.1 a ha')
     · exact ih h.2 ha' hb'
 
-theorem find?_unique {α : Type} (p : α → Bool) (l : List α) (a : α) (ha : a ∈ l) (hp : p a = true)
+private theorem find?_unique {α : Type} (p : α → Bool) (l : List α) (a : α) (ha : a ∈ l) (hp : p a = true)
     (hu : ∀ x ∈ l, p x = true → x = a) : l.find? p = some a := by
   induction l with
   | nil => exact nomatch ha
@@ -2896,5 +2922,328 @@ theorem final_orig (o : Obj) (h : Bytes) (res : LayoutRes) (hl : layoutOf o h = 
   obtain ⟨s2', hs2', hm⟩ := hstep2.moved k _ hs0
   rw [hs2] at hs2'; simp only [Option.some.injEq] at hs2'; subst hs2'
   exact ⟨o.secs[k], List.getElem?_eq_getElem hlt, hm.trans hm2⟩
+
+/-! ### the stream: what `save` writes reaches every range it laid out -/
+
+namespace OStream
+
+/-- the put position is inside the content -/
+def WF (s : OStream) : Prop := s.pos ≤ s.content.length
+
+theorem write_fail (s : OStream) (bs : Bytes) (h : (s.write bs).fail = false) : s.fail = false := by
+  unfold write at h
+  cases hf : s.fail with
+  | false => rfl
+  | true => rw [hf] at h; simp [hf] at h
+
+theorem write_facts (s : OStream) (bs : Bytes) (hw : s.WF) (h : (s.write bs).fail = false) :
+    (s.write bs).WF ∧ s.content.length ≤ (s.write bs).content.length ∧
+    s.pos + bs.length ≤ (s.write bs).content.length := by
+  have hf := write_fail s bs h
+  have key : ∀ room : Nat, room = bs.length →
+      let acc := bs.take room
+      let c := if s.pos + acc.length ≤ s.content.length then wr s.content s.pos acc
+               else s.content.take s.pos ++ acc
+      s.pos + acc.length ≤ c.length ∧ s.content.length ≤ c.length ∧ s.pos + bs.length ≤ c.length := by
+    intro room hre
+    unfold WF at hw
+    have hacc : (bs.take room).length = bs.length := by rw [hre]; simp
+    simp only
+    by_cases hc : s.pos + (bs.take room).length ≤ s.content.length
+    · rw [if_pos hc, wr_length _ _ _ hc]
+      omega
+    · rw [if_neg hc]
+      simp only [List.length_append, List.length_take] at hacc hc ⊢
+      omega
+  unfold write at h ⊢
+  unfold WF
+  simp only [hf, Bool.false_eq_true, if_false, decide_eq_false_iff_not, Nat.not_lt] at h ⊢
+  cases hb : s.budget with
+  | none => exact key _ rfl
+  | some k =>
+    rw [hb] at h
+    simp only at h ⊢
+    exact key _ (by omega)
+
+theorem seekp_facts (s : OStream) (p : Int) (h : (s.seekp p).fail = false) :
+    s.fail = false ∧ (s.seekp p).WF ∧ (s.seekp p).content = s.content ∧ 0 ≤ p ∧ (s.seekp p).pos = p.toNat := by
+  unfold seekp at h ⊢
+  unfold WF
+  cases hf : s.fail with
+  | true => rw [hf] at h; simp [hf] at h
+  | false =>
+    rw [hf] at h
+    by_cases hc : p < 0 ∨ p.toNat > s.content.length
+    · rw [if_neg (by simp), if_pos hc] at h; exact nomatch h
+    · rw [if_neg (by simp), if_neg hc]
+      exact ⟨rfl, by simp only; omega, rfl, by omega, rfl⟩
+
+theorem adjust_facts (s : OStream) (off : Int) (h : (s.adjust off).fail = false) :
+    s.fail = false ∧ (s.adjust off).WF ∧ s.content.length ≤ (s.adjust off).content.length ∧
+    0 ≤ off ∧ (s.adjust off).pos = off.toNat := by
+  unfold adjust at h ⊢
+  simp only at h ⊢
+  obtain ⟨h1, h2, h3, h4, h5⟩ := seekp_facts _ off h
+  have hf : s.fail = false := by
+    split at h1
+    · have := write_fail _ _ h1
+      unfold seekEnd at this; split at this <;> simp_all
+    · unfold seekEnd at h1; split at h1 <;> simp_all
+  refine ⟨hf, h2, ?_, h4, h5⟩
+  rw [h3]
+  have hse : s.seekEnd.WF := by unfold seekEnd WF; simp [hf]
+  have hsl : s.seekEnd.content = s.content := by unfold seekEnd; simp [hf]
+  split
+  · rename_i hlt
+    have := (write_facts s.seekEnd _ hse (by split at h1; exact h1; exact absurd hlt ‹_›)).2.1
+    rw [hsl] at this; exact this
+  · rw [hsl]; exact Nat.le_refl _
+
+end OStream
+
+theorem ite_pure_eq' {α : Type} (c : Prop) [Decidable c] (a b r : α)
+    (h : (if c then (pure a : M α) else pure b) = .ok r) : (c ∧ r = a) ∨ (¬ c ∧ r = b) := by
+  split at h <;> simp only [pure, Except.pure, Except.ok.injEq] at h
+  · exact Or.inl ⟨‹_›, h.symm⟩
+  · exact Or.inr ⟨‹_›, h.symm⟩
+
+/-- the stream operations of a successful `save`: header at the start, then every section
+    (header record, then data), then every program header -/
+theorem save_stream (o : Obj) (os : OStream) (r : SaveRes) (h : save o os = .ok r) (hok : r.ok = true) :
+    ∃ hdrF, r.obj.hdr = some hdrF ∧ ((os.seekp (trApply o.trans 0)).write hdrF).fail = false ∧
+      r.os = r.obj.segs.foldl (saveSegment o.cls o.enc (Hdr.e_phoff o.cls o.enc hdrF) (Hdr.e_phentsize o.cls o.enc hdrF))
+        (r.obj.secs.foldl (saveSection o.cls o.enc (Hdr.e_shoff o.cls o.enc hdrF) (Hdr.e_shentsize o.cls o.enc hdrF))
+          ((os.seekp (trApply o.trans 0)).write hdrF)) ∧
+      r.os.fail = false := by
+  unfold save at h
+  cases hh : o.hdr with
+  | none =>
+    rw [hh] at h
+    simp only [pure, Except.pure, Except.ok.injEq] at h
+    subst h; exact absurd hok (by simp)
+  | some hdr =>
+    rw [hh] at h
+    simp only at h
+    by_cases hf : os.fail = true
+    · simp only [hf, if_true, pure, Except.pure, Except.ok.injEq] at h
+      subst h; exact absurd hok (by simp)
+    · simp only [hf, Bool.false_eq_true, if_false] at h
+      generalize allResident o.cls o.trans o.secs { st := o.stream } [] = ar at h
+      cases hm : o.segs.mapM (calcSegAlign ar.1) with
+      | error e => rw [hm] at h; simp [bind, Except.bind] at h
+      | ok segs =>
+        rw [hm] at h
+        simp only [bind, Except.bind] at h
+        cases ho : orderedSegments segs with
+        | error e => rw [ho] at h; simp at h
+        | ok ordered =>
+          rw [ho] at h
+          simp only at h
+          split at h
+          · simp at h
+          · rename_i v hfold
+            cases v with
+            | none =>
+              simp only [pure, Except.pure, Except.ok.injEq] at h
+              subst h; exact absurd hok (by simp)
+            | some ld =>
+              obtain ⟨lay, done⟩ := ld
+              simp only at h
+              rcases ite_pure_eq' _ _ _ _ h with ⟨-, rfl⟩ | ⟨hnf, rfl⟩
+              · exact absurd hok (by simp)
+              · refine ⟨_, rfl, by simpa using hnf, rfl, by simpa using hok⟩
+
+/-- one `section_impl::save`: nothing before fails, the stream only grows, the section header
+    record — and the data, if written — end inside the stream -/
+theorem saveSection_facts (c : Cls) (enc : Enc) (shoff : BitVec 64) (shentsize : BitVec 16) (os : OStream)
+    (b : SecBuf) (hw : os.WF) (h : (saveSection c enc shoff shentsize os b).fail = false) :
+    os.fail = false ∧ (saveSection c enc shoff shentsize os b).WF ∧
+    os.content.length ≤ (saveSection c enc shoff shentsize os b).content.length ∧
+    0 ≤ shoff.toInt + (Int.ofNat shentsize.toNat) * (Int.ofNat b.index) ∧
+    (shoff.toInt + (Int.ofNat shentsize.toNat) * (Int.ofNat b.index)).toNat + (encodeShdr c enc b).length ≤
+      (saveSection c enc shoff shentsize os b).content.length ∧
+    (b.Occ → b.data.isSome = true →
+      b.offset.toInt.toNat + ((b.data.getD []).take b.size.toNat).length ≤
+        (saveSection c enc shoff shentsize os b).content.length) := by
+  unfold saveSection at h ⊢
+  simp only at h ⊢
+  generalize hhp : shoff.toInt + (Int.ofNat shentsize.toNat) * (Int.ofNat b.index) = hp at *
+  by_cases hc : (b.stype != BitVec.ofNat 32 SHT_NOBITS && b.stype != BitVec.ofNat 32 SHT_NULL && b.size != 0 && b.data.isSome) = true
+  · simp only [hc, if_true] at h ⊢
+    have h4 := OStream.write_fail _ _ h
+    obtain ⟨h3, w3, l3, p3, q3⟩ := OStream.adjust_facts _ _ h4
+    have h2 := OStream.write_fail _ _ h3
+    obtain ⟨h1, w1, l1, p1, q1⟩ := OStream.adjust_facts _ _ h2
+    obtain ⟨w2, l2, e2⟩ := OStream.write_facts _ _ w1 h3
+    obtain ⟨w4, l4, e4⟩ := OStream.write_facts _ _ w3 h
+    rw [q1] at e2; rw [q3] at e4
+    exact ⟨h1, w4, by omega, p1, by omega, fun _ _ => e4⟩
+  · have hc' : (b.stype != BitVec.ofNat 32 SHT_NOBITS && b.stype != BitVec.ofNat 32 SHT_NULL && b.size != 0 && b.data.isSome) = false := by
+      simpa using hc
+    simp only [hc', Bool.false_eq_true, if_false] at h ⊢
+    have h2 := OStream.write_fail _ _ h
+    obtain ⟨h1, w1, l1, p1, q1⟩ := OStream.adjust_facts _ _ h2
+    obtain ⟨w2, l2, e2⟩ := OStream.write_facts _ _ w1 h
+    rw [q1] at e2
+    refine ⟨h1, w2, by omega, p1, e2, ?_⟩
+    intro ho hd
+    exfalso
+    simp only [Bool.and_eq_false_iff, bne_eq_false_iff_eq, Bool.not_eq_true] at hc'
+    rcases hc' with ((h' | h') | h') | h'
+    · exact ho.1 h'
+    · exact ho.2.1 h'
+    · exact ho.2.2 h'
+    · rw [hd] at h'; exact nomatch h'
+
+theorem saveSections_facts (c : Cls) (enc : Enc) (shoff : BitVec 64) (shentsize : BitVec 16) (l : List SecBuf)
+    (os : OStream) (hw : os.WF) (h : (l.foldl (saveSection c enc shoff shentsize) os).fail = false) :
+    os.fail = false ∧ (l.foldl (saveSection c enc shoff shentsize) os).WF ∧
+    os.content.length ≤ (l.foldl (saveSection c enc shoff shentsize) os).content.length ∧
+    ∀ b ∈ l,
+      0 ≤ shoff.toInt + (Int.ofNat shentsize.toNat) * (Int.ofNat b.index) ∧
+      (shoff.toInt + (Int.ofNat shentsize.toNat) * (Int.ofNat b.index)).toNat + (encodeShdr c enc b).length ≤
+        (l.foldl (saveSection c enc shoff shentsize) os).content.length ∧
+      (b.Occ → b.data.isSome = true →
+        b.offset.toInt.toNat + ((b.data.getD []).take b.size.toNat).length ≤
+          (l.foldl (saveSection c enc shoff shentsize) os).content.length) := by
+  induction l generalizing os with
+  | nil => exact ⟨h, hw, Nat.le_refl _, fun b hb => nomatch hb⟩
+  | cons a rest ih =>
+    simp only [List.foldl_cons] at h ⊢
+    have hih := ih (saveSection c enc shoff shentsize os a)
+    by_cases hfa : (saveSection c enc shoff shentsize os a).fail = false
+    · obtain ⟨f1, f2, f3, f4, f5, f6⟩ := saveSection_facts c enc shoff shentsize os a hw hfa
+      obtain ⟨g1, g2, g3, g4⟩ := hih f2 h
+      refine ⟨f1, g2, by omega, ?_⟩
+      intro b hb
+      rcases List.mem_cons.1 hb with rfl | hb
+      · exact ⟨f4, by omega, fun ho hd => by have := f6 ho hd; omega⟩
+      · exact g4 b hb
+    · -- a failed stream stays failed
+      exfalso
+      have hfa' : (saveSection c enc shoff shentsize os a).fail = true := by simpa using hfa
+      have : ∀ (l : List SecBuf) (s : OStream), s.fail = true →
+          (l.foldl (saveSection c enc shoff shentsize) s).fail = true := by
+        intro l
+        induction l with
+        | nil => intro s hs; exact hs
+        | cons x xs ihx =>
+          intro s hs
+          simp only [List.foldl_cons]
+          apply ihx
+          have : saveSection c enc shoff shentsize s x = s := by
+            unfold saveSection OStream.adjust OStream.seekEnd OStream.write OStream.seekp OStream.tellp
+            simp [hs]
+          rw [this]; exact hs
+      rw [this rest _ hfa'] at h; exact nomatch h
+
+theorem saveSegment_facts (c : Cls) (enc : Enc) (phoff : BitVec 64) (phentsize : BitVec 16) (os : OStream)
+    (g : Seg) (_hw : os.WF) (h : (saveSegment c enc phoff phentsize os g).fail = false) :
+    os.fail = false ∧ (saveSegment c enc phoff phentsize os g).WF ∧
+    os.content.length ≤ (saveSegment c enc phoff phentsize os g).content.length := by
+  unfold saveSegment at h ⊢
+  simp only at h ⊢
+  have h2 := OStream.write_fail _ _ h
+  obtain ⟨h1, w1, l1, -, -⟩ := OStream.adjust_facts _ _ h2
+  obtain ⟨w2, l2, -⟩ := OStream.write_facts _ _ w1 h
+  exact ⟨h1, w2, by omega⟩
+
+theorem saveSegments_facts (c : Cls) (enc : Enc) (phoff : BitVec 64) (phentsize : BitVec 16) (l : List Seg)
+    (os : OStream) (hw : os.WF) (h : (l.foldl (saveSegment c enc phoff phentsize) os).fail = false) :
+    os.fail = false ∧ os.content.length ≤ (l.foldl (saveSegment c enc phoff phentsize) os).content.length := by
+  induction l generalizing os with
+  | nil => exact ⟨h, Nat.le_refl _⟩
+  | cons a rest ih =>
+    simp only [List.foldl_cons] at h ⊢
+    by_cases hfa : (saveSegment c enc phoff phentsize os a).fail = false
+    · obtain ⟨h1, w2, l2⟩ := saveSegment_facts c enc phoff phentsize os a hw hfa
+      have := ih (saveSegment c enc phoff phentsize os a) w2 h
+      exact ⟨h1, by omega⟩
+    · exfalso
+      have hfa' : (saveSegment c enc phoff phentsize os a).fail = true := by simpa using hfa
+      have : ∀ (l : List Seg) (s : OStream), s.fail = true →
+          (l.foldl (saveSegment c enc phoff phentsize) s).fail = true := by
+        intro l
+        induction l with
+        | nil => intro s hs; exact hs
+        | cons x xs ihx =>
+          intro s hs
+          simp only [List.foldl_cons]
+          apply ihx
+          have : saveSegment c enc phoff phentsize s x = s := by
+            unfold saveSegment OStream.adjust OStream.seekEnd OStream.write OStream.seekp OStream.tellp
+            simp [hs]
+          rw [this]; exact hs
+      rw [this rest _ hfa'] at h; exact nomatch h
+
+/-! ### transfer of the structural hypotheses to the object the layout runs on -/
+
+theorem preSave_length (o : Obj) : (preSave o).secs.length = o.secs.length := by
+  have := congrArg List.length (preSave_hdr o)
+  simpa using this
+
+theorem preSave_h0 (o : Obj)
+    (h0 : ∀ (i : Nat) (s : SecBuf), o.secs[i]? = some s → s.Occ → s.index ≠ 0) :
+    ∀ (i : Nat) (s : SecBuf), (preSave o).secs[i]? = some s → s.Occ → s.index ≠ 0 := by
+  intro i s hs ho
+  obtain ⟨s0, hs0, hh⟩ := hdrOf_getElem? (preSave_hdr o) i s hs
+  have := h0 i s0 hs0 ((occ_of_hdrOf hh).1 ho)
+  simp only [hdrOf, Prod.mk.injEq] at hh
+  rw [← hh.2.2.2.1]; exact this
+
+theorem saveHdr0_preSave (o : Obj) (h : Bytes) : saveHdr0 (preSave o) h = saveHdr0 o h := by
+  unfold saveHdr0
+  rw [preSave_length]
+  rfl
+
+/-! ### the section header table offset read back from the saved header -/
+
+theorem setF_length (c : Cls) (enc : Enc) (h : Bytes) (o32 w32 o64 w64 v : Nat)
+    (h32 : o32 + w32 ≤ h.length) (h64 : o64 + w64 ≤ h.length) :
+    (Hdr.setF c enc h o32 w32 o64 w64 v).length = h.length := by
+  unfold Hdr.setF
+  cases c
+  · simp only; rw [wr_length _ _ _ (by rw [wrField_length_arr]; exact h32)]
+  · simp only; rw [wr_length _ _ _ (by rw [wrField_length_arr]; exact h64)]
+
+theorem saveHdr0_length (o : Obj) (h : Bytes) (hl : 64 ≤ h.length) : (saveHdr0 o h).length = h.length := by
+  unfold saveHdr0
+  simp only
+  have l1 : ∀ v, (Hdr.set_phnum o.cls o.enc h v).length = h.length := by
+    intro v; unfold Hdr.set_phnum
+    exact setF_length _ _ _ _ _ _ _ _ (by simp only [Elf32_Ehdr.e_phnum_off]; omega) (by simp only [Elf64_Ehdr.e_phnum_off]; omega)
+  have l2 : ∀ (x : Bytes) v, x.length = h.length → (Hdr.set_phoff o.cls o.enc x v).length = h.length := by
+    intro x v hx; unfold Hdr.set_phoff
+    rw [setF_length _ _ _ _ _ _ _ _ (by simp only [Elf32_Ehdr.e_phoff_off]; omega) (by simp only [Elf64_Ehdr.e_phoff_off]; omega)]; exact hx
+  have l3 : ∀ (x : Bytes) v, x.length = h.length → (Hdr.set_shnum o.cls o.enc x v).length = h.length := by
+    intro x v hx; unfold Hdr.set_shnum
+    rw [setF_length _ _ _ _ _ _ _ _ (by simp only [Elf32_Ehdr.e_shnum_off]; omega) (by simp only [Elf64_Ehdr.e_shnum_off]; omega)]; exact hx
+  have l4 : ∀ (x : Bytes) v, x.length = h.length → (Hdr.set_shoff o.cls o.enc x v).length = h.length := by
+    intro x v hx; unfold Hdr.set_shoff
+    rw [setF_length _ _ _ _ _ _ _ _ (by simp only [Elf32_Ehdr.e_shoff_off]; omega) (by simp only [Elf64_Ehdr.e_shoff_off]; omega)]; exact hx
+  exact l4 _ _ (l3 _ _ (l2 _ _ (l1 _)))
+
+theorem e_shoff_set_shoff (c : Cls) (enc : Enc) (h : Bytes) (v : BitVec 64) (hl : 64 ≤ h.length)
+    (hf : fitsB c v = true) : Hdr.e_shoff c enc (Hdr.set_shoff c enc h v.toNat) = v := by
+  unfold Hdr.e_shoff Hdr.set_shoff Hdr.setF fld
+  cases c with
+  | c32 =>
+    simp only [Elf32_Ehdr.e_shoff_off, Elf32_Ehdr.e_shoff_w]
+    have := slice_wr_same_arr h (wrField enc 4 v.toNat) 32 (by rw [wrField_length_arr]; omega)
+    rw [wrField_length_arr] at this
+    rw [this, rdField_wrField enc 4 _ (Or.inr (Or.inr (Or.inl rfl)))]
+    simp only [fitsB, decide_eq_true_eq] at hf
+    apply BitVec.eq_of_toNat_eq
+    simp only [BitVec.toNat_ofNat, Nat.reducePow, Nat.reduceMul]
+    omega
+  | c64 =>
+    simp only [Elf64_Ehdr.e_shoff_off, Elf64_Ehdr.e_shoff_w]
+    have := slice_wr_same_arr h (wrField enc 8 v.toNat) 40 (by rw [wrField_length_arr]; omega)
+    rw [wrField_length_arr] at this
+    rw [this, rdField_wrField enc 8 _ (Or.inr (Or.inr (Or.inr rfl)))]
+    apply BitVec.eq_of_toNat_eq
+    have := v.isLt
+    simp only [BitVec.toNat_ofNat, Nat.reducePow, Nat.reduceMul]
+    omega
 
 end ElfioVerif
